@@ -45,6 +45,8 @@ def quant_values(kind: str, n: int, start: int, step: int):
         return [1.0 + (k - start) * 1e-5 for k in ks]
     if kind == "half":
         return [k * 0.5 for k in ks]
+    if kind == "tenth":  # not exactly representable: float32 and float64 versions differ
+        return sorted({k * 0.1 for k in ks})
     raise ValueError(kind)
 
 
